@@ -46,7 +46,8 @@ PROP = dict(
               "clock.Clock, a signalling tally.Scope and runtime.Stack goroutine states; trace validation with silent steps",
     rule="one trace = one forced schedule (16-36 driver steps: start/run/trap calls from up to 4 goroutines over 2-3 keys, "
          "gate releases with chosen outcome/ttl, clock ticks) on a fresh RequestCache, Limiter or IntervalTrap, plus one "
-         "dedicated schedule that forces the GC-vs-held-task window (F29); distinct = distinct event sequences; non-trivial = "
+         "dedicated schedule that forces the GC-vs-held-task window (F29), and lag schedules (a second Start of the key arrives while the "
+         "worker is inside RequestCache.error, parked in the not-found matcher - Dedup.tla between RcFnExit and RcFinish); distinct = distinct event sequences; non-trivial = "
          "a start arrived while an execution of the same key was in flight or its error cached / a worker timeout occurred / "
          "the trap was re-attempted after its task ran",
     assumptions=["TaskGCInterval is the compiled-in constant (1 tick = 1 minute of mock time for Limiter traces)",
